@@ -2,6 +2,8 @@ package rules
 
 import (
 	"go/token"
+	"go/types"
+	"sync"
 
 	"golang.org/x/tools/go/ssa"
 
@@ -13,6 +15,21 @@ func init() { register("C14", c14) }
 // wgOf returns the allocation a *sync.WaitGroup operand denotes (through closure free variables).
 func wgOf(v ssa.Value) ssa.Value {
 	v = core.Norm(v)
+	if p, ok := v.(*ssa.Parameter); ok {
+		// the goroutine body is a named function: the WaitGroup is what the go statement passes for this parameter
+		body := p.Parent()
+		idx := -1
+		for i, x := range body.Params {
+			if x == p {
+				idx = i
+			}
+		}
+		for _, g := range goStatementsOf(body) {
+			if idx >= 0 && idx < len(g.Call.Args) {
+				return wgOf(g.Call.Args[idx])
+			}
+		}
+	}
 	if fv, ok := v.(*ssa.FreeVar); ok {
 		fn := fv.Parent()
 		par := fn.Parent()
@@ -49,12 +66,7 @@ type fanout struct {
 func checkWaitGroupFanout(c *core.Ctx, r *core.Report, rule string, g *ssa.Go, cons string) (body *ssa.Function, ok bool) {
 	parent := g.Parent()
 	pos := c.Pos(g.Pos())
-	body = core.ClosureOf(g.Call.Value)
-	if body == nil {
-		if cal := g.Call.StaticCallee(); cal != nil {
-			body = cal
-		}
-	}
+	body = goBodyOf(g)
 	if body == nil || body.Blocks == nil {
 		r.Undecided(rule+".R1", cons, pos, "goroutine body is not a function literal or in-scope function")
 		return nil, false
@@ -171,13 +183,7 @@ func checkWaitGroupFanout(c *core.Ctx, r *core.Report, rule string, g *ssa.Go, c
 	return body, okAdd && okWait
 }
 
-func wgSameBody(g *ssa.Go, body *ssa.Function) bool {
-	b := core.ClosureOf(g.Call.Value)
-	if b == nil {
-		b = g.Call.StaticCallee()
-	}
-	return b == body
-}
+func wgSameBody(g *ssa.Go, body *ssa.Function) bool { return goBodyOf(g) == body }
 
 // loopBodyEntry: the successor of the header that lies inside the loop.
 func loopBodyEntry(l *core.Loop) *ssa.BasicBlock {
@@ -222,7 +228,8 @@ func c14(c *core.Ctx, r *core.Report) {
 		r.Fail("C14.R2", "Close@"+core.FnName(fn), c.Pos(site.Pos()), "Close is invoked by go/defer directly, without a way to wait for it")
 		return
 	}
-	if fn.Parent() == nil {
+	gos := goStatementsOf(fn)
+	if len(gos) == 0 {
 		// sequential idiom
 		cons := "sequential@" + core.FnName(fn)
 		rl := core.RangeLoopOf(fn, site.Block())
@@ -247,14 +254,8 @@ func c14(c *core.Ctx, r *core.Report) {
 		c14Field(c, r, rl.Slice)
 		return
 	}
-	// fan-out idiom: fn is the goroutine body
-	parent := fn.Parent()
-	var gos []*ssa.Go
-	for _, ci := range core.Calls(parent) {
-		if g, ok := ci.(*ssa.Go); ok && core.ClosureOf(g.Call.Value) == fn {
-			gos = append(gos, g)
-		}
-	}
+	// fan-out idiom: fn is the goroutine body (a literal or a named function)
+	parent := gos[0].Parent()
 	cons := "fanout@" + core.FnName(parent)
 	if !r.Exactly("C14.R1", "go statements starting the closer body", len(gos), 1) {
 		return
@@ -349,4 +350,64 @@ func c14Field(c *core.Ctx, r *core.Report, slice ssa.Value) {
 		}
 	}
 	r.Fail("C14.R5", "closers-field", c.Pos(slice.Pos()), "the ranged closer slice is not a load of the wired collection field")
+}
+
+// goBodyOf: the function a go statement runs (a literal or a named function / method).
+func goBodyOf(g *ssa.Go) *ssa.Function {
+	if b := core.ClosureOf(g.Call.Value); b != nil {
+		return b
+	}
+	return g.Call.StaticCallee()
+}
+
+var goIndex sync.Map // *ssa.Program -> []*ssa.Go
+
+// goStatementsOf lists the go statements (anywhere in the program's packages) that run body.
+func goStatementsOf(body *ssa.Function) []*ssa.Go {
+	prog := body.Prog
+	var all []*ssa.Go
+	if v, ok := goIndex.Load(prog); ok {
+		all = v.([]*ssa.Go)
+	} else {
+		for _, p := range prog.AllPackages() {
+			if !core.InScopePath(p.Pkg.Path()) {
+				continue
+			}
+			var visit func(f *ssa.Function)
+			visit = func(f *ssa.Function) {
+				for _, b := range f.Blocks {
+					for _, in := range b.Instrs {
+						if g, isGo := in.(*ssa.Go); isGo {
+							all = append(all, g)
+						}
+					}
+				}
+				for _, a := range f.AnonFuncs {
+					visit(a)
+				}
+			}
+			for _, m := range p.Members {
+				switch x := m.(type) {
+				case *ssa.Function:
+					visit(x)
+				case *ssa.Type:
+					if n, isN := x.Type().(*types.Named); isN {
+						for i := 0; i < n.NumMethods(); i++ {
+							if f := prog.FuncValue(n.Method(i)); f != nil {
+								visit(f)
+							}
+						}
+					}
+				}
+			}
+		}
+		goIndex.Store(prog, all)
+	}
+	var out []*ssa.Go
+	for _, g := range all {
+		if goBodyOf(g) == body {
+			out = append(out, g)
+		}
+	}
+	return out
 }
